@@ -97,14 +97,15 @@ def rule_b_chain(ctx, fns):
             if len(rets) == 1:
                 e = rets[0].c[0].strip()
                 det = key(e, True)[:200]
+                binp = "v%d" % f.params[0]["d"] if f.params else "?"
                 if e.k == "BinaryOperator" and e.op == "*":
                     parts = [p.strip() for p in e.c]
                     members = []
                     for p in parts:
                         if p.k == "ConditionalOperator" and len(p.c) == 3:
-                            cond, a, b = key(p.c[0], True), key(p.c[1].strip(), True), key(p.c[2].strip(), True)
+                            cond, a, b = key(p.c[0]), key(p.c[1].strip()), key(p.c[2].strip())
                             m = re.fullmatch(r"\(! stir::is_null_ptr\(this\.(\w+)\)\)", cond)
-                            if m and a == "*this.%s.get_bin_efficiency(bin)" % m.group(1) and b in ("1", "1.0"):
+                            if m and a == "*this.%s.get_bin_efficiency(%s)" % (m.group(1), binp) and b in ("1", "1.0"):
                                 members.append(m.group(1))
                     ok = sorted(members) == ["apply_first", "apply_second"]
             ctx.ob("C13.b-chain-product", f.qn, "efficiency=product", ok, f.where(), "returns (first? first.eff : 1) * (second? second.eff : 1)" if ok else "not the product of both members' efficiencies: " + det)
@@ -149,7 +150,7 @@ def rule_d_setup(ctx, fns):
             recvs = {}
             for c in calls:
                 recvs[key(c.c[0], True)] = c
-            pa = [p["n"] for p in f.params]
+            pa = ["v%d" % p["d"] for p in f.params]
             ok = True
             det = []
             for mem in ("*this.apply_first", "*this.apply_second"):
@@ -158,7 +159,7 @@ def rule_d_setup(ctx, fns):
                     ok = False
                     det.append("member %s is not set up" % mem)
                     continue
-                args = [key(a, True) for a in c.call_args()]
+                args = [key(a) for a in c.call_args()]
                 if args != pa:
                     ok = False
                     det.append("%s set up with %s instead of %s" % (mem, args, pa))
